@@ -9,6 +9,7 @@ import (
 	"fmt"
 	"io"
 	"math/rand"
+	"runtime"
 	"sync"
 	"sync/atomic"
 	"time"
@@ -32,6 +33,7 @@ type ncCase struct {
 	Client bool  `json:"client"`
 	Binary bool  `json:"binary"`
 	Unit   int   `json:"unit"`
+	NoWait bool  `json:"nowait"` // a deadline reset follows an idle expiry without giving the timer callback time to run
 }
 
 type timerLog struct {
@@ -224,6 +226,25 @@ func runNetConn(rep *Report, nc ncCase, tl *timerLog, short *int64) {
 				which, name = conn.SetWriteDeadline, "NcTimerIdle1"
 			}
 			which(time.Now().Add(-time.Second))
+			if nc.NoWait && si+1 < len(nc.Row.Steps) {
+				// The expiry callback runs on its own goroutine.  When the application resets the deadline straight away the
+				// callback may still be on its way; the reset must win whatever the order ("... until the deadline is reset").
+				nx := nc.Row.Steps[si+1].Op
+				if (st.Op == "rdlPast" && (nx == "rdlZero" || nx == "rdlFuture")) || (st.Op == "wdlPast" && nx == "wdlZero") {
+					for i := 0; i < 40; i++ { // the same two calls again and again: each pair is another chance for a late callback
+						if nx == "rdlFuture" {
+							which(time.Now().Add(time.Hour))
+						} else {
+							which(time.Time{})
+						}
+						if i%4 == 3 {
+							runtime.Gosched()
+						}
+						which(time.Now().Add(-time.Second))
+					}
+					continue
+				}
+			}
 			// how the adapter notices the passed deadline is its business (a timer callback logs NcTimerIdle); what is
 			// judged is only that it is NOT handled as an active call, and - by the following steps - that calls fail
 			if !tl.wait(id, name, 100*time.Millisecond) && tl.wait(id, "NcTimerActive"+name[len(name)-1:], 0) {
@@ -379,7 +400,7 @@ func init() {
 			for ui, us := range splitComma(*units) {
 				var u int
 				fmt.Sscan(us, &u)
-				nc := ncCase{Row: row, Client: (k+ui)%2 == 0, Binary: (k/2+ui)%2 == 0, Unit: u}
+				nc := ncCase{Row: row, Client: (k+ui)%2 == 0, Binary: (k/2+ui)%2 == 0, Unit: u, NoWait: ui%2 == 1}
 				jobs <- func(*rand.Rand) {
 					runNetConn(rep, nc, tl, &short)
 					atomic.AddInt64(&evals, 1)
